@@ -55,6 +55,31 @@ def err_adts(e):
     return out
 
 
+def check_weighted_select(ctx, R1="R06.1", R2="R06.2"):
+    """Weighted<T>::select: a member of weight zero is never used (ZeroWeight error instead), otherwise exactly one
+    delegation to the item with (population, rng) and its selection returned; shared with C13 (R13.3)"""
+    # Weighted<T>
+    f = ctx.fn("<ec_core::weighted::Weighted<T> as ec_core::operator::selector::Selector<P>>::select")
+    paths = return_paths(ctx.paths(f))
+    for p in paths:
+        zero = [c for c in p.conds if match(c[0], BinOp("Eq", lambda e: self_field(e, "weight"), Const(0), commutative=True))]
+        ne0 = [c for c in p.conds if match(c[0], BinOp("Ne", lambda e: self_field(e, "weight"), Const(0), commutative=True))]
+        is_zero_branch = (zero and zero[0][1] != 0) or (ne0 and ne0[0][1] == 0)
+        guarded = bool(zero or ne0)
+        if is_err_return(p) and not any(callee_is(c, "Selector::select") for c in p.calls()):
+            ctx.check(guarded and is_zero_branch and "ZeroWeight" in err_adts(p.ret), R2, "Weighted/zero-weight-error",
+                      cond_str(p) + " -> " + short(p.ret, 5), f.at())
+        else:
+            sel = [c for c in p.calls() if callee_is(c, "Selector::select")]
+            ok = guarded and not is_zero_branch and len(sel) == 1 and derives_from_self(sel[0][3][0], field="item") \
+                and sel[0][3][1] == POP and sel[0][3][2] == RNG
+            ctx.check(ok, R2, "Weighted/delegates-only-when-weight-nonzero", cond_str(p) + " -> " + short(p.ret, 5), f.at(),
+                      bad_detail="delegation is not guarded by weight != 0 or does not forward (population, rng): conds [%s], ret %s" % (cond_str(p), short(p.ret, 6)))
+            r = peel(p.ret, ("Result::map_err",), casts=False)
+            ctx.check(sel and r == sel[0], R1, "Weighted/returns-inner-selection", short(p.ret, 5), f.at())
+    ctx.floor(R2, len(paths), 2, "Weighted::select paths")
+
+
 def check(ctx):
     from .common import shadowing_audit
     ctx.floor('R06.1', shadowing_audit(ctx, 'R06.1', ('ec_core::operator::selector::',)), 4, 'Selector impls of workspace types (shadowing audit)')
@@ -220,26 +245,7 @@ def check(ctx):
                             [lambda a: derives_from_self(a), is_pop, is_rng], wrappers=())
     ctx.floor("R06.1", n, 28, "type-erased pointer Selector impls")
 
-    # Weighted<T>
-    f = ctx.fn("<ec_core::weighted::Weighted<T> as ec_core::operator::selector::Selector<P>>::select")
-    paths = return_paths(ctx.paths(f))
-    for p in paths:
-        zero = [c for c in p.conds if match(c[0], BinOp("Eq", lambda e: self_field(e, "weight"), Const(0), commutative=True))]
-        ne0 = [c for c in p.conds if match(c[0], BinOp("Ne", lambda e: self_field(e, "weight"), Const(0), commutative=True))]
-        is_zero_branch = (zero and zero[0][1] != 0) or (ne0 and ne0[0][1] == 0)
-        guarded = bool(zero or ne0)
-        if is_err_return(p) and not any(callee_is(c, "Selector::select") for c in p.calls()):
-            ctx.check(guarded and is_zero_branch and "ZeroWeight" in err_adts(p.ret), "R06.2", "Weighted/zero-weight-error",
-                      cond_str(p) + " -> " + short(p.ret, 5), f.at())
-        else:
-            sel = [c for c in p.calls() if callee_is(c, "Selector::select")]
-            ok = guarded and not is_zero_branch and len(sel) == 1 and derives_from_self(sel[0][3][0], field="item") \
-                and sel[0][3][1] == POP and sel[0][3][2] == RNG
-            ctx.check(ok, "R06.2", "Weighted/delegates-only-when-weight-nonzero", cond_str(p) + " -> " + short(p.ret, 5), f.at(),
-                      bad_detail="delegation is not guarded by weight != 0 or does not forward (population, rng): conds [%s], ret %s" % (cond_str(p), short(p.ret, 6)))
-            r = peel(p.ret, ("Result::map_err",), casts=False)
-            ctx.check(sel and r == sel[0], "R06.1", "Weighted/returns-inner-selection", short(p.ret, 5), f.at())
-    ctx.floor("R06.2", len(paths), 2, "Weighted::select paths")
+    check_weighted_select(ctx)
 
     # WeightedPair<A,B>
     f = ctx.fn("<ec_core::weighted::weighted_pair::WeightedPair<A, B> as ec_core::operator::selector::Selector<P>>::select")
